@@ -41,6 +41,7 @@ class FGen:
             return copy.deepcopy(r.choice(self.pool))
         kinds = ["string", "integer", "boolean", "enum"]
         if keys: kinds += ["ref", "ref"]
+        if len(keys) >= 2 and r.random() < 0.5: kinds += ["union"]
         if depth > 0: kinds += ["array", "nullable", "object", "object", "object"]
         k = r.choice(kinds)
         if k == "string": s = self.title({"type": "string"}, 0.15)
@@ -50,6 +51,9 @@ class FGen:
         elif k == "ref":
             key = r.choice(keys)
             s = self.title({"$ref": "#" if key == "#" else "#/definitions/" + key}, 0.1)
+        elif k == "union":
+            # an untagged union of references: its finalisation looks at the finalised state of the types it refers to
+            s = self.title({"oneOf": [{"$ref": "#/definitions/" + x} for x in r.sample([x for x in keys if x != "#"] or keys, 2)]}, 0.2)
         elif k == "array": s = self.title({"type": "array", "items": self.schema(depth - 1, keys)}, 0.2)
         elif k == "nullable":
             inner = self.schema(depth - 1, [], byvalue_refs)
@@ -67,6 +71,20 @@ class FGen:
             self.title(s, 0.35)
         if depth > 0 and r.random() < 0.3: self.pool.append(copy.deepcopy(s))
         return s
+
+_E1 = {"type": "string", "enum": ["a", "b"]}; _E2 = {"type": "string", "enum": ["on", "off"]}
+_U = {"oneOf": [{"$ref": "#/definitions/Beta"}, {"$ref": "#/definitions/Gamma"}]}
+# forward references inside a batch, then unrelated later calls (and the same additions in other orders / splits)
+HAND_HISTORIES = [
+    {"calls": [{"defs_list": [["Alpha", _U], ["Beta", _E1], ["Gamma", _E2]]}, {"type": {"type": "string", "maxLength": 3}, "name": "Later"}]},
+    {"calls": [{"type": {"type": "string", "maxLength": 3}, "name": "Later"}, {"defs_list": [["Alpha", _U], ["Beta", _E1], ["Gamma", _E2]]}]},
+    {"calls": [{"defs_list": [["Beta", _E1], ["Gamma", _E2], ["Alpha", _U]]}, {"type": {"type": "integer"}, "name": None}, {"type": {"type": "object", "properties": {"u": {"$ref": "#/definitions/Alpha"}}}, "name": "Holder"}]},
+    {"calls": [{"root": {"title": "Circle", "type": "object", "properties": {"r": {"type": "integer"}}}},
+               {"root": {"title": "Tree", "type": "object", "properties": {"children": {"type": "array", "items": {"$ref": "#"}}}}},
+               {"type": {"type": "boolean"}, "name": None}]},
+    {"calls": [{"root": {"title": "Tree", "type": "object", "properties": {"children": {"type": "array", "items": {"$ref": "#"}}}}},
+               {"root": {"title": "Circle", "type": "object", "properties": {"r": {"type": "integer"}}}}]},
+]
 
 def gen_history(rng, max_calls):
     g = FGen(rng)
@@ -289,11 +307,20 @@ def oracle(hist, out):
                     if grew: fails.append(("readd-grows", k, {"next_id": [pd["next_id"], d["next_id"]]}, None))
                 elif grew and (d["ref_to_id"] or pd["ref_to_id"]):
                     fails.append(("readd-grows", k, {"next_id": [pd["next_id"], d["next_id"]]}, "C16-readd-ref-types"))
-        # a returned id resolves
+        # a returned id resolves, and to the type of the schema that was added: a titled root / a hinted type whose
+        # title is a plain PascalCase word is named by it (no settings rename in these histories)
         if s["r"].startswith("ok:"):
             rid = s["r"][3:]
             if rid not in d["entries"]:
                 fails.append(("returned-id-dangling", k, rid, residue))
+            else:
+                import re as _re
+                body = calls[k].get("root") if "root" in calls[k] else None
+                t = body.get("title") if isinstance(body, dict) else None
+                e = d["entries"][rid]
+                if isinstance(t, str) and _re.fullmatch(r"[A-Z][a-z0-9]+", t) and "$ref" not in body and e.get("kind") in ("struct", "enum", "newtype") \
+                        and e.get("name") != t and not (hist.get("settings") or {}):
+                    fails.append(("returned-root-name", k, {"title": t, "returned": rid, "named": e.get("name")}, residue))
         prev = s
     # (iii) no two named entries with one name; the rendered items are distinct
     last = next((s for s in reversed(steps) if s.get("dump")), None)
@@ -409,6 +436,7 @@ def run(ctx):
 
     # corpus: the findings' witnesses first, then generated histories
     hists = [("witness", f["witness"]) for f in findings if "calls" in f["witness"]]
+    hists += [("hand", h) for h in HAND_HISTORIES]
     hists += [("fragment", gen_history(ctx.rng, max_calls)) for _ in range(n_frag)]
     hists += [("rich", rich_history(ctx.rng, max_calls)) for _ in range(n_rich)]
     seen, uh = set(), []
